@@ -18,6 +18,7 @@ func init() {
 	vrt.Register("C07_failed_condition", FailedCondition)
 	vrt.Register("C07_falsy_shadows_truthy", FalsyShadowsTruthy)
 	vrt.Register("C07_truthiness_routes", TruthinessRoutes)
+	vrt.Register("C07_truthiness_rebinding", TruthinessRebinding)
 }
 
 type T struct{ N int }
@@ -436,5 +437,51 @@ func TruthinessRoutes() {
 	vrt.Note("got", got)
 	vrt.Assert(err == nil, "testing the truth of a value reached by a path renders: "+c.expr)
 	vrt.Assert(got == want, "the truth value does not depend on the route the value takes to the test: "+c.expr)
+	vrt.Cover("done")
+}
+
+// ---- one name tested again and again while it is bound to other values: the
+// loop variable over 3 elements of 9 kinds (nil and unknown-like first, truthy
+// later, and the reverse), a name that a Go helper sets before it renders its
+// block, a let that replaces a falsy value - the test reflects the value the
+// name has at that moment, in if, ! and && alike
+func TruthinessRebinding() {
+	x := vrt.Int()
+	pool := []interface{}{nil, x, "", "s", false, true, (*T)(nil), []int{}, 0}
+	truth := []bool{false, true, false, true, false, true, false, true, true}
+	var elems []interface{}
+	want := ""
+	for i := 0; i < 3; i++ {
+		k := vrt.Choice(len(pool))
+		elems = append(elems, pool[k])
+		if truth[k] {
+			want += "T"
+		} else {
+			want += "F"
+		}
+	}
+	ctx := plush.NewContext()
+	ctx.Set("xs", elems)
+	ctx.Set("setv", func(i int, help plush.HelperContext) (template.HTML, error) {
+		help.Set("v", elems[i])
+		s, err := help.Block()
+		return template.HTML(s), err
+	})
+	var in string
+	switch vrt.Choice(4) {
+	case 0:
+		in = "<%= for (v) in xs { %><%= if (v) { %>T<% } else { %>F<% } %><% } %>"
+	case 1:
+		in = "<%= for (v) in xs { %><%= if (!v) { %>F<% } else { %>T<% } %><% } %>"
+	case 2:
+		in = "<%= for (v) in xs { %><%= if (v && true) { %>T<% } else { %>F<% } %><% } %>"
+	default:
+		in = "<%= setv(0) { %><%= if (v) { %>T<% } else { %>F<% } %><% } %><%= setv(1) { %><%= if (v) { %>T<% } else { %>F<% } %><% } %><%= setv(2) { %><%= if (v) { %>T<% } else { %>F<% } %><% } %>"
+	}
+	vrt.Note("input", in)
+	got, err := plush.Render(in, ctx)
+	vrt.Note("got", got)
+	vrt.Assert(err == nil, "testing a name that is bound to other values in turn renders")
+	vrt.Assert(got == want, "a test reflects the value the name is bound to at that moment")
 	vrt.Cover("done")
 }
